@@ -405,7 +405,7 @@ def strip_state(d):
     return d
 
 
-NBITS_KEYS = ("picture_number", "next_parse_offset", "previous_parse_offset")
+NBITS_KEYS = ("picture_number", "next_parse_offset", "previous_parse_offset", "parse_info_prefix")  # fixed-width 32 bit fields
 
 
 def huge_values(d, out=None):
@@ -757,6 +757,8 @@ def run(ctx):
             for close in (False, True):
                 if close and h[-1]["u"]["k"] == "END":
                     continue
+                if not close and "big" in h[-1]["u"]:
+                    continue  # a stream that stops right after a huge-value unit is not parsed (eof): only the closed one
                 jobs.append((len(jobs) + 1, h, ctx.seed * 1009 + r, close))
     gev = common.pmap(g_case, jobs)
     nm = ctx.pick(20000, 400000) // sub
